@@ -144,6 +144,16 @@ impl Cfg {
 
 fn count_params(cfg: &Cfg) -> CountVectorizerParams {
     let mut p = CountVectorizer::params();
+    // every other regex configuration is set on a parameter object that has a history: it was
+    // checked and fitted with a different split expression before (a cached compiled expression
+    // must not survive the setter)
+    if let Tok::Regex(r) = &cfg.tok {
+        if r.len() % 2 == 0 {
+            p = p.tokenizer(Tokenizer::Regex("[a-z]".to_string()));
+            let decoy = ndarray::array!["ab cd".to_string(), "b".to_string()];
+            let _ = p.fit(&decoy);
+        }
+    }
     if let Some(b) = cfg.lower {
         p = p.convert_to_lowercase(b);
     }
